@@ -2,6 +2,7 @@ package tlsp
 
 import (
 	"fmt"
+	"strings"
 	"testing"
 
 	"github.com/aperturerobotics/bifrost/peer"
@@ -143,12 +144,22 @@ func checkC26(c c26Case) (o vstat.Outcome) {
 		case "other-context":
 			o.NonTrivial = true
 			b, _ := sig.MarshalVT()
-			enc, err := peer.EncryptToPubKey(kd.GetPublic(), "some other application context", b)
+			// an unrelated context, or a near miss of the WebRTC one (surrounding white space, case, one character less or more)
+			wc := webrtc.SignalingCryptContext
+			foreign := []string{"some other application context", wc + "\n", wc + " ", " " + wc, "\t" + wc + "\r\n", wc[:len(wc)-1], wc[1:], wc + "\x00", strings.ToUpper(wc), ""}[c.N%10]
+			o.Classes = append(o.Classes, fmt.Sprintf("foreign-context-%d", c.N%10))
+			enc, err := peer.EncryptToPubKey(kd.GetPublic(), foreign, b)
 			if err != nil {
 				return vstat.Viol("encrypt-failed", "%v", err)
 			}
 			if _, derr := webrtc.DecodeWebRtcSignal(enc, kd); derr == nil {
-				return vstat.Viol("decodes-foreign-context", "payload encrypted under a non-WebRTC context decoded as a signal")
+				return vstat.Viol("decodes-foreign-context", "payload encrypted under the non-WebRTC context %q decoded as a signal", foreign)
+			}
+			// and the other way round: a signal does not open under the foreign context
+			if senc, serr := webrtc.EncodeWebRtcSignal(sig, kd.GetPublic()); serr == nil {
+				if _, derr := peer.DecryptWithPrivKey(kd, foreign, senc); derr == nil {
+					return vstat.Viol("signal-opens-under-foreign-context", "an encoded signal was decrypted under the non-WebRTC context %q", foreign)
+				}
 			}
 		case "arbitrary":
 			o.NonTrivial = true
